@@ -139,6 +139,21 @@ class MX(Ext):
             return stub(lambda eng: self.value is None)
         if name == "name":
             return stub(lambda eng: self.label)
+        if name in ("is_one", "is_zero"):
+            target = 1 if name == "is_one" else 0
+
+            def test(eng):
+                v = self.value
+                if v is None:
+                    return False
+                if isinstance(v, XR):
+                    return z3.And(v.k == 0, v.v == target)
+                if ops.is_bool_sort(v):
+                    return v if target == 1 else z3.Not(v)
+                if ops.is_sym(v):
+                    return _num(v) == target
+                return float(v) == float(target)
+            return stub(test)
         raise Unsupported("MX.%s" % name)
 
     def sym_binop(self, eng, op, other, reflected):
